@@ -272,7 +272,7 @@ func runPARSLICE(c *Ctx) {
 	}
 	sort.Slice(ks, func(i, j int) bool {
 		if ks[i].fn.Pos() != ks[j].fn.Pos() {
-			return ks[i].fn.Pos() < ks[j].fn.Pos()
+			return ir.PosLess(ks[i].fn.Pos(), ks[j].fn.Pos())
 		}
 		return ks[i].base < ks[j].base
 	})
@@ -301,7 +301,7 @@ func runPARSLICE(c *Ctx) {
 			sort.Strings(bs)
 			var first ssa.Instruction
 			for _, i := range kb {
-				if first == nil || i.Pos() < first.Pos() {
+				if first == nil || ir.PosLess(i.Pos(), first.Pos()) {
 					first = i
 				}
 			}
